@@ -130,6 +130,10 @@ func (r *replicator) Stop() {
 
 func (r *replicator) rootContextWithCancel(ctx context.Context) (context.Context, context.CancelFunc) {
 	ctx, cancel := context.WithCancel(ctx)
+	if r.rootCtx.Err() != nil {
+		// already stopped: do not leave a window in which work is started with a live context
+		cancel()
+	}
 	go func() {
 		select {
 		case <-r.rootCtx.Done():
@@ -270,6 +274,10 @@ func (r *replicator) processHash(ctx context.Context, item processItem) ([]cid.C
 
 			select {
 			case <-ctx.Done():
+				// keep receiving until the channel is closed: a fetch that is still running
+				// would otherwise block forever on its progress report
+				for range cprogress {
+				}
 				return
 			case entry = <-cprogress:
 			}
